@@ -124,7 +124,7 @@ func verifSite() string {
 	for {
 		fr, more := frames.Next()
 		name := fr.Function
-		if name != "" && !strings.Contains(name, "folang/pkg/dict.") {
+		if name != "" && !strings.Contains(name, "folang/pkg/dict.") && !strings.Contains(name, "folang/pkg/frt.") {
 			if i := strings.LastIndex(name, "/"); i >= 0 {
 				name = name[i+1:]
 			}
